@@ -204,7 +204,7 @@ def Scene.meshOf (s : Scene) (md : Model) : Option PMesh :=
 
 def Scene.visible (s : Scene) : List Model :=
   s.models.filter (fun md => match s.meshOf md with
-    | some m => m.primitiveCount != 0
+    | some m => !meshSkipped m
     | none => false)
 
 def decodeAt (d : Doc) (buf : List UInt8) (i : Nat) : Option (List Nat) :=
